@@ -209,7 +209,7 @@ class Ctx:
                 except Exception as e:  # noqa
                     res.trace = []
         if coverage:
-            for m in re.finditer(r'<(\w+) line \d+, col \d+ to line \d+, col \d+ of module (\w+)>: (\d+):(\d+)', out):
+            for m in re.finditer(r'<(\w+) line \d+, col \d+ to line \d+, col \d+ of module (\w+)(?: \([\d ]+\))?>: (\d+):(\d+)', out):
                 res.coverage[m.group(1)] = res.coverage.get(m.group(1), 0) + int(m.group(4))
         for line in out.splitlines():
             if line.startswith('"@@J') or line.startswith('@@J'):
@@ -356,9 +356,12 @@ class Ctx:
             results[i] = {'id': i, 'ok': False, 'kind': 'infra', 'msg': 'no result (driver died or timed out)'}
         return results, lines
 
-    def absorb(self, results, lines, *, sample=3, nontrivial_default=False):
-        """Fold replay results into counters; collect divergences."""
+    def absorb(self, results, lines, *, sample=3, nontrivial_default=False, hang_is_violation=False):
+        """Fold replay results into counters; collect divergences. A watchdog `hang` is infrastructure (exit 2) unless the
+        property itself is about termination (hang_is_violation=True)."""
         for r in results:
+            if r.get('kind') == 'hang' and not hang_is_violation:
+                r['kind'] = 'infra'
             self.evaluations += max(1, int(r.get('evals', 1) or 1))
             if r.get('ok'):
                 self.traces_validated += 1
